@@ -277,6 +277,11 @@ class RefineDroplet(Contract):
             for levels in ("fixed", "auto"):
                 for adj in (False, True):
                     out.append(dict(cls=cls, dim=dim, grid=kind, levels=levels, adjust_values=adj))
+        # exactly ONE intensity level supplied, the other automatic
+        for cls, dim, kind in (("SphericalDroplet", 2, "cartesian"), ("DiffuseDroplet", 3, "cartesian"), ("DiffuseDroplet", 2, "spherical")):
+            for levels in ("vmin-only", "vmax-only"):
+                for adj in (False, True):
+                    out.append(dict(cls=cls, dim=dim, grid=kind, levels=levels, adjust_values=adj))
         out.append(dict(cls="SphericalDroplet", dim=2, grid="cartesian", levels="fixed", adjust_values=False, not_a_field=True))
         out.append(dict(cls="DiffuseDroplet", dim=2, grid="cartesian", levels="fixed", adjust_values=False, params="given"))
         out.append(dict(cls="DiffuseDroplet", dim=2, grid="cartesian", levels="auto", adjust_values=True, params="given"))
@@ -301,11 +306,20 @@ class RefineDroplet(Contract):
         grid = SGrid(run, dim, case["grid"])
         data = SCell(run.input_real("image_value"), "cells")
         field = SField(grid, data) if not case.get("not_a_field") else SOpaque("not-a-field")
-        vmin = run.input_real("vmin") if case["levels"] == "fixed" else None
-        vmax = run.input_real("vmax") if case["levels"] == "fixed" else None
+        vmin = run.input_real("vmin") if case["levels"] in ("fixed", "vmin-only") else None
+        vmax = run.input_real("vmax") if case["levels"] in ("fixed", "vmax-only") else None
         if case["levels"] == "fixed" and case["adjust_values"]:
             # documented use: vmax is the inside value, vmin the outside value
             run.assume(vmax >= vmin)
+        if case["levels"] in ("vmin-only", "vmax-only"):
+            # requires (documented use: vmin is the outside, vmax the inside value): a supplied outside level is not above the brightest value of
+            # the fit region, a supplied inside level not below its darkest one - otherwise the intensity range would be negative
+            def hook(run2, cell, attr, r, vmin=vmin, vmax=vmax):
+                if attr == "max" and vmin is not None:
+                    run2.assume(r >= vmin)
+                if attr == "min" and vmax is not None:
+                    run2.assume(r <= vmax)
+            run.ghost["reduction_hook"] = hook
         self.ctx = dict(run=run, d=d, grid=grid, field=field, data=data, vmin=vmin, vmax=vmax, cons=cons,
                         old=rec.copy(), old_data_v=data.v)
         names = [f"position[{j}]" for j in range(dim) if j not in cons] + ["radius", "interface_width"] + \
@@ -369,10 +383,24 @@ class RefineDroplet(Contract):
                     z3.And(*[to_real(x) == to_real(y) for x, y in zip(x0[: nfree + 1], exp0)])))
         fr = run.ghost.get("fit_region")
         out.append(("the fit region is the dilated binary image of the candidate", fr is not None))
-        if case["levels"] == "auto":
-            reds = [(cell, attr) for (cell, attr, r) in run.ghost.get("cell_reduction_list", [])]
+        reds = [(cell, attr) for (cell, attr, r) in run.ghost.get("cell_reduction_list", [])]
+        rl0 = {attr: r for (cell, attr, r) in run.ghost.get("cell_reduction_list", [])}
+        if case["levels"] != "fixed":
+            want_red = {"auto": ["max", "min"], "vmin-only": ["max"], "vmax-only": ["min"]}[case["levels"]]
             out.append(("automatic intensity levels are the extremes of the image over the fit region (not of the whole image)",
-                        sorted(a for _, a in reds) == ["max", "min"] and all(cell.space == "masked" for cell, _ in reds)))
+                        all(a_ in [x for _, x in reds] for a_ in want_red) and all(cell.space == "masked" for cell, _ in reds)))
+        # the levels that enter the residual: a SUPPLIED level as supplied, an automatic one = the extreme over the fit region.  Relational form
+        # (no need to name the profile): shifting those two levels by a constant shifts the residual vmin + (vmax - vmin) * profile - image by it
+        res0 = ls.get("residual_at_x0")
+        lv = {"vmin": c["vmin"] if c["vmin"] is not None else rl0.get("min"), "vmax": c["vmax"] if c["vmax"] is not None else rl0.get("max")}
+        if isinstance(res0, SCell) and z3.is_expr(res0.v) and all(z3.is_expr(v) and z3.is_const(v) for v in lv.values()):
+            delta = z3.Real("level_shift")
+            shifted = z3.substitute(to_real(res0.v), (lv["vmin"], lv["vmin"] + delta), (lv["vmax"], lv["vmax"] + delta))
+            out.append(("the residual is formed with the intensity levels of the request: a supplied level is used as supplied, an automatic one is the "
+                        "extreme over the fit region (shifting these two levels by a constant shifts the residual by the same constant)",
+                        shifted == to_real(res0.v) + delta))
+        else:
+            out.append(("the residual is formed with the intensity levels of the request (supplied, or the extremes over the fit region)", False))
         if c.get("params0") is not None:
             now = c["params"]
             out.append(("the caller's least_squares_params only gains the tolerance defaults (no per-call data such as bounds is stored in it)",
@@ -383,11 +411,7 @@ class RefineDroplet(Contract):
             # the two intensity parameters are fitted whenever there is an intensity range to fit; for a vanishing range (constant image over
             # the fit region / vmin == vmax) their bounds would be degenerate and the droplet parameters alone are fitted
             base = len(exp0) + 1 + (len(old.get("amplitudes").elems) if "amplitudes" in old.fields else 0)
-            if case["levels"] == "fixed":
-                vr = c["vmax"] - c["vmin"]
-            else:
-                rl = {attr: r for (cell, attr, r) in run.ghost.get("cell_reduction_list", [])}
-                vr = rl["max"] - rl["min"] if "max" in rl and "min" in rl else None
+            vr = (lv["vmax"] - lv["vmin"]) if lv["vmax"] is not None and lv["vmin"] is not None else None
             extra2 = z3.BoolVal(len(x0) == base + 2)
             extra0 = z3.BoolVal(len(x0) == base)
             out.append(("with fitted intensity levels the parameter vector has two extra entries (none when the intensity range vanishes)",
@@ -411,6 +435,11 @@ class RefineDroplet(Contract):
                        from_self=(t % 2 == 0))
         if case["grid"] == "cartesian":
             yield dict(seed=seed * 10, vmin=0.0, vmax=1.0, noise=0.0, from_self=True, outside=True)
+        if case["levels"] in ("vmin-only", "vmax-only"):
+            # an interface much wider than the fit region: the extremes of the image over the region differ a lot from the true levels, so a
+            # supplied level that is replaced by the automatic one changes the fit
+            yield dict(seed=seed * 10 + 4, vmin=0.0, vmax=1.0, noise=0.0, from_self=True, wide=True)
+            yield dict(seed=seed * 10 + 6, vmin=-2.0, vmax=6.0, noise=0.0, from_self=True, wide=True)
 
     def concrete_run(self, case, inputs):
         return refine_check(case, inputs)
@@ -451,7 +480,7 @@ def refine_check(case, inputs):
     else:
         pos = np.array([0.0, 0.0, 0.5 * sum(grid.axes_bounds[1]) + rng.uniform(-1, 1)])
     R = 3.0 + rng.random() + (2.0 if inputs.get("outside") else 0.0)
-    true = droplets.DiffuseDroplet(pos, R, 1.0)
+    true = droplets.DiffuseDroplet(pos, R, 3.0 if inputs.get("wide") else 1.0)
     vmin, vmax = float(inputs.get("vmin", 0.0)), float(inputs.get("vmax", 1.0))
     if vmax < vmin:
         vmin, vmax = vmax, vmin
@@ -471,7 +500,7 @@ def refine_check(case, inputs):
     if cls == "SphericalDroplet":
         cand = droplets.SphericalDroplet(guess_pos, gr)
     elif cls == "DiffuseDroplet":
-        cand = droplets.DiffuseDroplet(guess_pos, gr, 1.0 if inputs.get("from_self") else None)
+        cand = droplets.DiffuseDroplet(guess_pos, gr, true.interface_width if inputs.get("from_self") else None)
     else:
         import droplets.droplets as _dd
         cand = getattr(_dd, cls)(guess_pos, gr, 1.0, np.zeros(modes))
@@ -490,10 +519,7 @@ def refine_check(case, inputs):
         fun(np.clip(res.x + 1e-3 * (1 + np.abs(res.x)), lb_, ub_))
         return res
     kw = dict(adjust_values=case["adjust_values"])
-    if case["levels"] == "fixed":
-        kw.update(vmin=vmin, vmax=vmax)
-    else:
-        kw.update(vmin=None, vmax=None)
+    kw.update(vmin=vmin if case["levels"] in ("fixed", "vmin-only") else None, vmax=vmax if case["levels"] in ("fixed", "vmax-only") else None)
 
     class _Opt:     # what droplets.image_analysis sees as `optimize`
         least_squares = staticmethod(spy)
@@ -536,10 +562,15 @@ def refine_check(case, inputs):
                 c0.interface_width = grid.typical_discretization
             region = ndimage.binary_dilation(c0._get_phase_field(grid, dtype=bool), iterations=1 + int(2 * c0.interface_width))
             if region.any():
-                lo_v, hi_v = (vmin, vmax) if case["levels"] == "fixed" else (before_img[region].min(), before_img[region].max())
+                lo_v = vmin if case["levels"] in ("fixed", "vmin-only") else before_img[region].min()
+                hi_v = vmax if case["levels"] in ("fixed", "vmax-only") else before_img[region].max()
                 dev = lambda d: float(np.sum((lo_v + (hi_v - lo_v) * d._get_phase_field(grid)[region] - before_img[region]) ** 2))
                 if dev(out) > dev(c0) * (1 + 1e-6) + 1e-12:
                     bad.append("the squared deviation from the image over the fitted region is no larger than the candidate's")
+                # the optimiser's own starting cost must be the candidate's deviation measured with the levels of the request
+                if abs(seen["cost0"] - 0.5 * dev(c0)) > 1e-9 * (1 + 0.5 * dev(c0)):
+                    bad.append("the residual is formed with the intensity levels of the request: a supplied level is used as supplied, an automatic one is "
+                               "the extreme over the fit region")
     else:
         bad.append("the fit is delegated to least_squares")
     if inputs.get("from_self") and not inputs.get("noise") and cls in ("DiffuseDroplet",) and case["levels"] == "fixed" and not case["adjust_values"]:
